@@ -121,20 +121,6 @@ package intermediate
 // ---------------------------------------------------------------------------
 
 //@ pure recList(r entities.Record) []entities.InfoElementWithValue = r.(*baseRecord).orderedElementList
-//@ // wfElemA: well-typed element as the aggregation process sees it: the dynamic type supports the getter/setter of its data type.
-//@ // Weaker than entities.wfElem: the aggregation code itself stores dateTimeSeconds elements (flowEndSecondsFrom*Node) in
-//@ // Unsigned32InfoElement objects (NewUnsigned32InfoElement on a dateTimeSeconds information element), which wfElem excludes.
-//@ pure wfElemA(e entities.InfoElementWithValue) bool = !isnil(e) && ie(e) != nil
-//@     && (dt(e) == OctetArray ==> is(e, *OctetArrayInfoElement)) && (dt(e) == Unsigned8 ==> is(e, *Unsigned8InfoElement))
-//@     && (dt(e) == Unsigned16 ==> is(e, *Unsigned16InfoElement)) && (dt(e) == Unsigned32 ==> is(e, *Unsigned32InfoElement))
-//@     && (dt(e) == Unsigned64 ==> is(e, *Unsigned64InfoElement)) && (dt(e) == Signed8 ==> is(e, *Signed8InfoElement))
-//@     && (dt(e) == Signed16 ==> is(e, *Signed16InfoElement)) && (dt(e) == Signed32 ==> is(e, *Signed32InfoElement))
-//@     && (dt(e) == Signed64 ==> is(e, *Signed64InfoElement)) && (dt(e) == Float32 ==> is(e, *Float32InfoElement))
-//@     && (dt(e) == Float64 ==> is(e, *Float64InfoElement)) && (dt(e) == Boolean ==> is(e, *BooleanInfoElement))
-//@     && (dt(e) == MacAddress ==> is(e, *MacAddressInfoElement)) && (dt(e) == String ==> is(e, *StringInfoElement))
-//@     && (dt(e) == DateTimeSeconds ==> is(e, *DateTimeSecondsInfoElement) || is(e, *Unsigned32InfoElement))
-//@     && (dt(e) == DateTimeMilliseconds ==> is(e, *DateTimeMillisecondsInfoElement) || is(e, *Unsigned64InfoElement))
-//@     && ((dt(e) == Ipv4Address || dt(e) == Ipv6Address) ==> is(e, *IPAddressInfoElement))
 //@ pure recNN(r entities.Record) bool = is(r, *dataRecord) && r.(*dataRecord) != nil && (forall j in [0, len(recList(r))): wfElemA(recList(r)[j]))
 //@ pure hasName(r entities.Record, name string) bool = exists j in [0, len(recList(r))): ie(recList(r)[j]).Name == name
 //@ // u8Of / strOf: value of the first element called name (when there is one, of that kind)
